@@ -7,7 +7,19 @@ ir_util.find_object).  Spec: Emboss/Spec/Scope.lean.
 -/
 import Emboss.Lemmas.Scope
 import Emboss.Lemmas.ScopeTable
+import Emboss.Lemmas.ScopeVisible
+import Emboss.Lemmas.ScopeMembers
 namespace Emboss.Scope
+
+/-! ## The visible scopes -/
+
+/-- The scopes searched for a reference — (the field's own scope for a field attribute,) the
+enclosing types innermost first, the module, the anonymously imported files — are pairwise
+distinct **iff** the anonymous imports are distinct files other than the module itself.
+(Round 1 carried `visible.Nodup` as a hypothesis; the theorems about references below now
+assume only this condition on the import list.) -/
+theorem C12_visible_nodup (c : Ctx) : c.visible.Nodup ↔ c.WellFormed :=
+  visible_nodup_iff c
 
 /-! ## The search over the visible scopes -/
 
@@ -132,10 +144,11 @@ theorem resolveRef_ok_iff (T : Table) (r : Ref) (n : String) (l : Nat) (rest : L
 /-- **Main theorem.**  A reference is bound to `d` (no error recorded) iff `d` is what the
 scoping rules designate: the head name is offered by exactly one visible scope (for
 compiler-made `is_local_name` references: the innermost offering scope), and the dotted tail
-walks the member tables from there.  `hn`: the visible scopes are pairwise distinct (they are
-prefixes of one path plus the prelude, see `Ctx.visible`). -/
-theorem C12_resolve_iff_unique (T : Table) (r : Ref) (hn : r.ctx.visible.Nodup) (d : Path) :
+walks the member tables from there.  `hw`: the anonymous imports are distinct files other than
+the module (⇔ the visible scopes are pairwise distinct, `C12_visible_nodup`). -/
+theorem C12_resolve_iff_unique (T : Table) (r : Ref) (hw : r.ctx.WellFormed) (d : Path) :
     resolveRef T true r = (some d, []) ↔ Resolves T r d := by
+  have hn : r.ctx.visible.Nodup := (C12_visible_nodup r.ctx).2 hw
   unfold Resolves
   cases hnames : r.names with
   | nil =>
@@ -171,8 +184,9 @@ theorem C12_resolve_missing (T : Table) (clean : Bool) (r : Ref) (n : String) (l
 an `Ambiguous name` error is recorded — whatever the order of the scopes. -/
 theorem C12_resolve_ambiguous (T : Table) (clean : Bool) (r : Ref) (n : String) (l : Nat)
     (rest : List (String × Nat)) (hnames : r.names = (n, l) :: rest) (hloc : r.isLocal = false)
-    (hn : r.ctx.visible.Nodup) (h : TwoCandidates T r.ctx.cur r.ctx.visible n) :
+    (hw : r.ctx.WellFormed) (h : TwoCandidates T r.ctx.cur r.ctx.visible n) :
     ∃ a b es, resolveRef T clean r = (none, Err.ambiguous n r.loc a b :: es) := by
+  have hn : r.ctx.visible.Nodup := (C12_visible_nodup r.ctx).2 hw
   obtain ⟨a, b, more, hf⟩ := (filter_two_iff T r.ctx.cur n r.ctx.visible hn).2 h
   unfold resolveRef
   rw [hnames]
@@ -215,9 +229,9 @@ theorem resolveRef_clean_ok (T : Table) (r : Ref) (hne : r.names ≠ []) (x : Op
 /-- If a pass over the references of a module records no error, then **every** reference was
 bound, and bound to exactly what the scoping rules designate (accepted ⇒ all resolved).
 `hne`: references have at least one name component (the parser never builds an empty one);
-`hnd`: visible scopes pairwise distinct. -/
+`hnd`: anonymous imports distinct and other than the module (`C12_visible_nodup`). -/
 theorem C12_accepted_all_resolved (T : Table) (refs : List Ref) (os : List (Option Path))
-    (hne : ∀ r ∈ refs, r.names ≠ []) (hnd : ∀ r ∈ refs, r.ctx.visible.Nodup)
+    (hne : ∀ r ∈ refs, r.names ≠ []) (hnd : ∀ r ∈ refs, r.ctx.WellFormed)
     (h : resolveRefs T refs [] = (os, [])) : AllResolved T refs os := by
   induction refs generalizing os with
   | nil =>
@@ -240,6 +254,129 @@ theorem C12_accepted_all_resolved (T : Table) (refs : List Ref) (os : List (Opti
       (fun r hr => hnd r (List.mem_cons_of_mem _ hr)) (Prod.ext rfl h2)
     rw [← h1, hd, hx]
     exact AllResolved.cons hres this
+
+/-- The converse: if every reference of a pass is resolvable per the scoping rules (each to the
+`d` listed in `os`), the pass records no error and binds exactly those — a module is never
+rejected by the reference passes without a reason. -/
+theorem C12_all_resolved_accepted (T : Table) (refs : List Ref) (os : List (Option Path))
+    (hnd : ∀ r ∈ refs, r.ctx.WellFormed) (h : AllResolved T refs os) :
+    resolveRefs T refs [] = (os, []) := by
+  induction h with
+  | nil => simp [resolveRefs]
+  | @cons r rs d os hres _ ih =>
+    have h1 := (C12_resolve_iff_unique T r (hnd r (by simp)) d).2 hres
+    have h2 := ih (fun r hr => hnd r (List.mem_cons_of_mem _ hr))
+    simp [resolveRefs, h1, h2]
+
+/-- Accepted ⇔ all resolved, with the bindings the rules designate. -/
+theorem C12_accepted_iff_all_resolved (T : Table) (refs : List Ref) (os : List (Option Path))
+    (hne : ∀ r ∈ refs, r.names ≠ []) (hnd : ∀ r ∈ refs, r.ctx.WellFormed) :
+    resolveRefs T refs [] = (os, []) ↔ AllResolved T refs os :=
+  ⟨C12_accepted_all_resolved T refs os hne hnd, C12_all_resolved_accepted T refs os hnd⟩
+
+/-! ## `resolve_symbols` as a whole -/
+
+theorem allSome_eq_some (l : List (Option Path)) (ps : List Path) :
+    allSome l = some ps ↔ l = ps.map some := by
+  induction l generalizing ps with
+  | nil =>
+    cases ps <;> simp [allSome]
+  | cons x xs ih =>
+    cases x with
+    | none => cases ps <;> simp [allSome]
+    | some p =>
+      cases ps with
+      | nil => simp [allSome]
+      | cons q qs =>
+        simp only [allSome, Option.map_eq_some_iff, List.map_cons, List.cons.injEq,
+          Option.some.injEq]
+        constructor
+        · intro ⟨a, ha, hpq⟩
+          obtain ⟨rfl, rfl⟩ := hpq
+          exact ⟨rfl, (ih _).1 ha⟩
+        · intro ⟨hpq, hxs⟩
+          exact ⟨qs, (ih _).2 hxs, by rw [hpq]; exact ⟨rfl, rfl⟩⟩
+
+/-- **End to end.**  `resolve_symbols` (table construction, imports, the pass over the plain
+references, the pass over the heads of the field references — sharing one error list) accepts a
+module set and binds the references to `ra` / the heads to `rb` **iff** no scope is given a name
+twice (`fullTable` reports no error), no reference stands outside every type, and every
+reference is resolvable per the scoping rules, to exactly these definitions.  So an accepted
+module has every name bound to the one lexically visible definition, and a module is rejected
+only if a name is defined twice, undefined, or visible from two scopes. -/
+theorem C12_resolve_symbols_iff (M : ModuleDesc) (refs : List Ref) (frefs : List FRef)
+    (ra rb : List Path)
+    (hne : ∀ r ∈ refs, r.names ≠ []) (hne' : ∀ f ∈ frefs, f.path ≠ [])
+    (hnd : ∀ r ∈ refs, r.ctx.WellFormed) (hnd' : ∀ f ∈ frefs, f.ctx.WellFormed) :
+    (match resolveSymbols M refs frefs with
+      | .resolved a b => a = ra ∧ b = rb
+      | _ => False) ↔
+      ((fullTable M).2 = [] ∧
+       (refs ++ frefs.map headRef).any (fun r => r.ctx.types.isEmpty) = false ∧
+       AllResolved (fullTable M).1 refs (ra.map some) ∧
+       AllResolved (fullTable M).1 (frefs.map headRef) (rb.map some)) := by
+  have hneH : ∀ r ∈ frefs.map headRef, r.names ≠ [] := by
+    intro r hr
+    obtain ⟨f, hf, rfl⟩ := List.mem_map.1 hr
+    have := hne' f hf
+    unfold headRef
+    cases hp : f.path with
+    | nil => exact absurd hp this
+    | cons p ps => simp
+  have hndH : ∀ r ∈ frefs.map headRef, r.ctx.WellFormed := by
+    intro r hr
+    obtain ⟨f, hf, rfl⟩ := List.mem_map.1 hr
+    have := hnd' f hf
+    unfold headRef
+    cases hp : f.path <;> exact this
+  unfold resolveSymbols
+  simp only
+  by_cases h1 : (fullTable M).2 = []
+  · by_cases h2 : (refs ++ frefs.map headRef).any (fun r => r.ctx.types.isEmpty) = true
+    · simp [h1, h2]
+    · simp only [h1, ne_eq, not_true_eq_false, if_false, h2, Bool.false_eq_true, true_and]
+      simp only [Bool.not_eq_true] at h2
+      obtain ⟨more, hm⟩ := resolveRefs_errs_prefix (fullTable M).1 (frefs.map headRef)
+        (resolveRefs (fullTable M).1 refs []).2
+      by_cases h3 : (resolveRefs (fullTable M).1 (frefs.map headRef)
+          (resolveRefs (fullTable M).1 refs []).2).2 = []
+      · simp only [h3, not_true_eq_false, if_false]
+        rw [h3] at hm
+        have ha2 : (resolveRefs (fullTable M).1 refs []).2 = [] :=
+          (List.append_eq_nil_iff.1 hm.symm).1
+        rw [ha2] at h3 ⊢
+        have hA := C12_accepted_iff_all_resolved (fullTable M).1 refs
+          (resolveRefs (fullTable M).1 refs []).1 hne hnd
+        have hB := C12_accepted_iff_all_resolved (fullTable M).1 (frefs.map headRef)
+          (resolveRefs (fullTable M).1 (frefs.map headRef) []).1 hneH hndH
+        have hA' := hA.1 (Prod.ext rfl ha2)
+        have hB' := hB.1 (Prod.ext rfl h3)
+        constructor
+        · intro h
+          cases hxa : allSome (resolveRefs (fullTable M).1 refs []).1 with
+          | none => simp [hxa] at h
+          | some xa =>
+            cases hxb : allSome (resolveRefs (fullTable M).1 (frefs.map headRef) []).1 with
+            | none => simp [hxa, hxb] at h
+            | some xb =>
+              simp only [hxa, hxb] at h
+              obtain ⟨rfl, rfl⟩ := h
+              rw [allSome_eq_some] at hxa hxb
+              rw [← hxa, ← hxb]
+              exact ⟨hA', hB'⟩
+        · intro ⟨hRa, hRb⟩
+          have e1 := C12_all_resolved_accepted _ _ _ hnd hRa
+          have e2 := C12_all_resolved_accepted _ _ _ hndH hRb
+          rw [e1, e2]
+          simp only [(allSome_eq_some _ _).2 rfl, and_self]
+      · simp only [h3, not_false_eq_true, if_true, false_iff, not_and]
+        intro hRa hRb
+        have e1 := C12_all_resolved_accepted _ _ _ hnd hRa
+        have e2 := C12_all_resolved_accepted _ _ _ hndH hRb
+        rw [e1] at h3
+        rw [e2] at h3
+        exact h3 rfl
+  · simp [h1]
 
 /-! ## Duplicate definitions -/
 
@@ -319,66 +456,77 @@ theorem C12_abbreviation_private (T : Table) (cur : Path) (name : String) (isLoc
 
 /-! ## Member lookup -/
 
-theorem physical_not_ok (E : FEnv) : ∀ (fuel : Nat) (o : Obj) (prev : PathElem) (cs : List Path),
-    physical E fuel o prev ≠ .inl (.ok cs)
-  | 0, _, _, _ => by simp [physical]
-  | fuel + 1, o, prev, cs => by
-    intro h
-    simp only [physical] at h
-    split at h
-    · split at h
-      · split at h
-        · cases h
-        · split at h
-          · exact physical_not_ok E fuel _ _ _ h
-          · cases h
-      · cases h
-      · cases h
-      · cases h
-    · cases h
-    · cases h
-    · cases h
+/-- **Member lookup, full statement.**  Whenever `_resolve_field_reference` comes to an answer
+for the `i`-th field reference (`hF`: the fuel given was enough — `fuel` is a distinct output of
+the model and the harness reports it), it binds the path to `cs` **iff** the member rules of
+the spec derive `cs`: the head as bound by the scope search, every further element looked up in
+the type of the physical field behind the previous element, renaming virtual fields
+(`let a = x.y`) followed to what they rename, and in nothing else. -/
+theorem C12_member_lookup (E : FEnv) (F i : Nat) (hF : resolveFRef E F i ≠ .fuel)
+    (cs : List Path) : resolveFRef E F i = .ok cs ↔ PathBound E i cs := by
+  constructor
+  · exact (member_sound E F).2.2 i cs
+  · intro h
+    obtain ⟨f, hf⟩ := member_complete E _ h
+    have h1 := resolveFRef_mono E F (max F f) i (Nat.le_max_left ..) hF
+    have h2 := resolveFRef_mono E f (max F f) i (Nat.le_max_right ..)
+      (by rw [hf]; exact fun h => by cases h)
+    rw [← h1, h2, hf]
 
-/-- Soundness of `_resolve_field_reference`'s member loop: whenever it binds the path
-elements `rs`, it binds the `k`-th one to a canonical name that ends in the element's own name
-and that `find_object` finds (the name is looked up in the type of the previous field and
-nowhere else — see `members`: `tc ++ [r.name]`).
+/-- The answer does not depend on the amount of fuel once it is not `fuel`. -/
+theorem C12_member_lookup_fuel (E : FEnv) (F F' i : Nat) (hle : F ≤ F')
+    (hF : resolveFRef E F i ≠ .fuel) : resolveFRef E F' i = resolveFRef E F i :=
+  resolveFRef_mono E F F' i hle hF
 
-Partial: the full statement (`C12_member_lookup`: the result is `.ok cs` **iff** `cs` is the
-walk through the field types, following virtual aliases, and the error kinds are exactly
-array / noncomposite / missing) needs a declarative alias-following relation and an
-induction over the three mutually recursive functions; only soundness is proved. -/
-theorem C12_member_lookup_partial (E : FEnv) (fuel : Nat) (o : Obj) (prev : PathElem)
+/-- **Member lookup, the rejections.**  Under the same proviso, the path is rejected with
+error `e` **iff** the spec's failure rules derive `e`: the definition reached is not a field or
+is a virtual field that is not a plain renaming (`noncomposite`, located at the element naming
+it), the physical field behind it is an array (`arrayMember`), or its type has no member of
+that name (`missing`, located at the member name).  Together with `C12_member_lookup`: a
+field path is bound exactly when it is right and rejected exactly when it is wrong in one of
+these ways; the only other answers are the silent `bail` (the renamed reference is itself
+rejected — its own error is reported where it stands) and `crash` (internal inconsistency,
+never observed). -/
+theorem C12_member_lookup_rejects (E : FEnv) (F i : Nat) (hF : resolveFRef E F i ≠ .fuel)
+    (e : Err) : resolveFRef E F i = .err e ↔ PathRejected E i e := by
+  constructor
+  · exact (member_fail_sound E F).2.2 i e
+  · intro h
+    obtain ⟨f, hf⟩ := member_fail_complete E _ h
+    have h1 := resolveFRef_mono E F (max F f) i (Nat.le_max_left ..) hF
+    have h2 := resolveFRef_mono E f (max F f) i (Nat.le_max_right ..)
+      (by rw [hf]; exact fun h => by cases h)
+    rw [← h1, h2, hf]
+
+/-- The only errors the member loop reports are `Cannot access member of array`,
+`Cannot access member of noncomposite field` and `No candidate for`. -/
+theorem C12_member_lookup_errors (E : FEnv) (F i : Nat) (e : Err)
+    (h : resolveFRef E F i = .err e) :
+    (∃ n l, e = .arrayMember n l) ∨ (∃ n l, e = .noncomposite n l) ∨ (∃ n l, e = .missing n l) := by
+  have := (member_err_kinds E F).2.2 i e h
+  cases e with
+  | arrayMember n l => exact Or.inl ⟨n, l, rfl⟩
+  | noncomposite n l => exact Or.inr (Or.inl ⟨n, l, rfl⟩)
+  | missing n l => exact Or.inr (Or.inr ⟨n, l, rfl⟩)
+  | duplicate _ _ _ => exact absurd this (by simp [MemberErrKind])
+  | ambiguous _ _ _ _ => exact absurd this (by simp [MemberErrKind])
+  | badAlias _ _ => exact absurd this (by simp [MemberErrKind])
+
+/-- Corollary in the round-1 form: every bound path element is named `… ++ [its own name]` and
+is an existing definition. -/
+theorem C12_member_lookup_names (E : FEnv) (fuel : Nat) (o : Obj) (prev : PathElem)
     (rs : List PathElem) (acc cs : List Path) (h : members E fuel o prev rs acc = .ok cs) :
     ∃ ms, cs = acc ++ ms ∧ MembersBound E.objs rs ms := by
-  induction fuel generalizing o prev rs acc with
-  | zero => simp [members] at h
-  | succ fuel ih =>
-    cases rs with
-    | nil =>
-      simp only [members] at h
-      cases h
-      exact ⟨[], by simp, MembersBound.nil⟩
-    | cons r rest =>
-      simp only [members] at h
-      split at h
-      · rename_i res hres
-        subst h
-        exact absurd hres (physical_not_ok E fuel o prev cs)
-      · rename_i o1 _
-        split at h
-        · cases h
-        · rename_i t _
-          split at h
-          · cases h
-          · rename_i tc _
-            split at h
-            · cases h
-            · rename_i o' ho'
-              obtain ⟨ms, hcs, hall⟩ := ih o' r rest (acc ++ [tc ++ [r.name]]) h
-              exact ⟨(tc ++ [r.name]) :: ms, by simp [hcs],
-                MembersBound.cons (by simp) (by simp [ho']) hall⟩
-        · cases h
+  obtain ⟨ms, hcs, hm⟩ := (member_sound E fuel).2.1 o prev rs acc cs h
+  refine ⟨ms, hcs, ?_⟩
+  clear hcs h
+  generalize hj : MemberJudgement.mem o rs ms = j at hm
+  induction hm generalizing o rs ms with
+  | memNil => cases hj; exact MembersBound.nil
+  | memCons _ _ _ hf _ _ ih2 =>
+    cases hj
+    exact MembersBound.cons (by simp) (by simp [hf]) (ih2 _ _ _ rfl)
+  | _ => cases hj
 
 /-! ## Non-vacuity, tests and counterexamples (concrete instances, by evaluation) -/
 
@@ -419,6 +567,59 @@ example :
     resolveRef exT true ⟨ctxFoo, [("Nope", 20)], 20, false⟩ = (none, [Err.missing "Nope" 20]) := by
   decide
 
+/-- Non-vacuity of `C12_visible_nodup` and of the hypothesis `WellFormed` used above: the
+contexts of `exM` satisfy it.  The prelude's *own* context does not (the prelude imports itself
+anonymously): there the same scope is searched twice and a name defined once is reported as
+ambiguous with itself — which is why the condition cannot be dropped (the real prelude contains
+no reference that needs resolving; the harness counts such contexts). -/
+example :
+    ctxFoo.WellFormed ∧ ctxBar.WellFormed ∧
+    ¬ ({ module := "", types := ["UInt"], attrField := none, anon := [""] } : Ctx).WellFormed ∧
+    resolveRef exT true ⟨{ module := "", types := ["UInt"], attrField := none, anon := [""] },
+      [("UInt", 20)], 20, false⟩ = (none, [Err.ambiguous "UInt" 20 5 5]) := by
+  unfold Ctx.WellFormed
+  decide
+
+/-- Non-vacuity of `C12_accepted_iff_all_resolved`: a pass over three references of `exM` that
+records no error. -/
+example :
+    resolveRefs exT [⟨ctxFoo, [("Qux", 20)], 20, false⟩, ⟨ctxFoo, [("UInt", 21)], 21, false⟩,
+                     ⟨ctxBar, [("Foo", 22), ("Qux", 23)], 22, false⟩] [] =
+      ([some ["m.emb", "Foo", "Qux"], some ["", "UInt"], some ["m.emb", "Foo", "Qux"]], []) := by
+  decide
+
+/-- Non-vacuity of `C12_resolve_symbols_iff`: `exM` with the type references of its two fields
+and one field reference (`ln`, the abbreviation, inside `Foo`) is accepted as a whole. -/
+example :
+    (match resolveSymbols exM [⟨ctxFoo, [("UInt", 21)], 21, false⟩, ⟨ctxBar, [("Foo", 22), ("Qux", 23)], 22, false⟩]
+        [⟨ctxFoo, [⟨"ln", 30, 31⟩]⟩] with
+      | .resolved a b => decide (a = [["", "UInt"], ["m.emb", "Foo", "Qux"]] ∧ b = [["m.emb", "Foo", "long_name"]])
+      | _ => false) = true := by decide
+
+/-- `struct Foo: x`, `struct Bar: Foo f; let g = f; … g.x …, … g.y …, … x.z …` -/
+def exE : FEnv :=
+  { objs := [⟨["m.emb", "Foo", "x"], .field (.atomic 0)⟩, ⟨["m.emb", "Bar", "f"], .field (.atomic 1)⟩,
+             ⟨["m.emb", "Bar", "g"], .field (.virtAlias 0)⟩, ⟨["m.emb", "Bar", "h"], .field .virtOther⟩],
+    typeCanon := fun i => if i = 0 then some ["", "UInt"] else some ["m.emb", "Foo"],
+    headCanon := fun i => if i = 0 then some ["m.emb", "Bar", "f"] else if i = 3 then some ["m.emb", "Bar", "h"]
+                          else some ["m.emb", "Bar", "g"],
+    frefs := fun i =>
+      if i = 0 then some ⟨ctxBar, [⟨"f", 1, 2⟩]⟩
+      else if i = 1 then some ⟨ctxBar, [⟨"g", 3, 4⟩, ⟨"x", 5, 6⟩]⟩
+      else if i = 2 then some ⟨ctxBar, [⟨"g", 7, 8⟩, ⟨"y", 9, 10⟩]⟩
+      else some ⟨ctxBar, [⟨"h", 11, 12⟩, ⟨"x", 13, 14⟩]⟩ }
+
+/-- Non-vacuity of `C12_member_lookup` (+ `_rejects`, `_fuel`, `_errors`): `g.x` through the renaming field
+`g` is bound to `Foo.x` (enough fuel; with too little the answer is the distinct `fuel`);
+`g.y` is `No candidate for 'y'`, `h.x` (`h` an arithmetic virtual field) is noncomposite. -/
+example :
+    (match resolveFRef exE 10 1 with
+      | .ok [["m.emb", "Bar", "g"], ["m.emb", "Foo", "x"]] => true | _ => false) = true ∧
+    (match resolveFRef exE 2 1 with | .fuel => true | _ => false) = true ∧
+    (match resolveFRef exE 10 2 with | .err (.missing "y" 9) => true | _ => false) = true ∧
+    (match resolveFRef exE 10 3 with | .err (.noncomposite "h" 12) => true | _ => false) = true := by
+  decide
+
 /-- Non-vacuity of `C12_abbreviation_private`: inside `Foo` the abbreviation `ln` is bound to
 the field; from `Bar` it is not a candidate. -/
 example :
@@ -441,13 +642,88 @@ theorem C12_abbreviation_tail_counterexample :
       (some ["m.emb", "Foo", "long_name"], []) ∧
     (lookup exT ["m.emb", "Foo", "ln"]).map (·.vis) = some Vis.priv := by decide
 
-/-- `p.x` where `p` is a runtime parameter: `_resolve_field_reference` treats the parameter
-as a virtual field and raises AttributeError (`read_transform`); the model's outcome is
-`crash`.  Replayed on the real code: findings.d/C12.json. -/
-theorem C12_member_of_parameter_counterexample :
-    let E : FEnv := { objs := [⟨["m.emb", "Foo", "p"], .param⟩], typeCanon := fun _ => none,
-                      headCanon := fun _ => some ["m.emb", "Foo", "p"],
-                      frefs := fun _ => some ⟨ctxFoo, [⟨"p", 1, 1⟩, ⟨"x", 2, 2⟩]⟩ }
-    (match resolveFRef E 10 0 with | .crash => true | _ => false) = true := by decide
+/-- Test (fix 8da3027 of /repo): `p.x` where `p` is a runtime parameter is answered with
+`Cannot access member of noncomposite field 'p'` located at the reference `p` (it used to be an
+AttributeError, model outcome `crash`); the same through a virtual alias `let q = p` … `q.x`
+(error names `q`). -/
+example :
+    let objs : List Obj := [⟨["m.emb", "Foo", "p"], .param⟩, ⟨["m.emb", "Foo", "q"], .field (.virtAlias 1)⟩]
+    let E : FEnv := { objs := objs, typeCanon := fun _ => none,
+                      headCanon := fun i => if i = 2 then some ["m.emb", "Foo", "q"] else some ["m.emb", "Foo", "p"],
+                      frefs := fun i =>
+                        if i = 0 then some ⟨ctxFoo, [⟨"p", 1, 2⟩, ⟨"x", 3, 4⟩]⟩
+                        else if i = 1 then some ⟨ctxFoo, [⟨"p", 5, 6⟩]⟩
+                        else some ⟨ctxFoo, [⟨"q", 7, 8⟩, ⟨"x", 9, 10⟩]⟩ }
+    (match resolveFRef E 10 0 with | .err (.noncomposite "p" 2) => true | _ => false) = true ∧
+    (match resolveFRef E 10 2 with | .err (.noncomposite "q" 8) => true | _ => false) = true := by
+  decide
+
+/-! ### A renaming that leads back to itself (finding `hang:…:_resolve_field_reference`) -/
+
+def objF : Obj := ⟨["m.emb", "Foo", "f"], .field (.atomic 0)⟩
+def objG : Obj := ⟨["m.emb", "Foo", "g"], .field (.virtAlias 0)⟩
+
+/-- `struct Foo:  0 [+1] Foo f;  let g = f.g;  let h = g.x` — field reference 0 is `f.g`,
+field reference 1 is `g.x`. -/
+def exH : FEnv :=
+  { objs := [objF, objG, ⟨["m.emb", "Foo", "h"], .field (.virtAlias 1)⟩],
+    typeCanon := fun _ => some ["m.emb", "Foo"],
+    headCanon := fun i => if i = 0 then some ["m.emb", "Foo", "f"] else some ["m.emb", "Foo", "g"],
+    frefs := fun i => if i = 0 then some ⟨ctxFoo, [⟨"f", 1, 2⟩, ⟨"g", 3, 4⟩]⟩
+                      else some ⟨ctxFoo, [⟨"g", 5, 6⟩, ⟨"x", 7, 8⟩]⟩ }
+
+theorem exH_ref0 (n : Nat) :
+    resolveFRef exH n 0 = .fuel ∨
+      resolveFRef exH n 0 = .ok [["m.emb", "Foo", "f"], ["m.emb", "Foo", "g"]] := by
+  by_cases h : resolveFRef exH n 0 = .fuel
+  · exact Or.inl h
+  · right
+    have h5 : resolveFRef exH 5 0 = .ok [["m.emb", "Foo", "f"], ["m.emb", "Foo", "g"]] := by decide
+    have a := resolveFRef_mono exH n (max n 5) 0 (Nat.le_max_left ..) h
+    have b := resolveFRef_mono exH 5 (max n 5) 0 (Nat.le_max_right ..) (by rw [h5]; exact fun h => by cases h)
+    rw [← a, b, h5]
+
+theorem exH_physical (n : Nat) (prev : PathElem) : physical exH n objG prev = .inl .fuel := by
+  induction n with
+  | zero => rfl
+  | succ n ih =>
+    have hk : objG.kind = .field (.virtAlias 0) := rfl
+    have hl : ([["m.emb", "Foo", "f"], ["m.emb", "Foo", "g"]] : List Path).getLast? =
+        some ["m.emb", "Foo", "g"] := by decide
+    have hf : findObject exH.objs ["m.emb", "Foo", "g"] = some objG := by decide
+    simp only [physical, hk]
+    rcases exH_ref0 n with h | h
+    · simp only [h]
+    · simp only [h, hl, hf, ih]
+
+/-- **Counterexample (the model mirrors the hang of the real code).**  In
+`struct Foo: 0 [+1] Foo f; let g = f.g; let h = g.x` the renaming field `g` renames … itself:
+the alias-following loop of `_resolve_field_reference` gets no nearer to a physical field, and
+*no* amount of fuel makes the model answer for `g.x` — the real loop never ends (replayed on
+the real code: findings.d/C12.json, key `hang:symbol_resolver.py:_resolve_field_reference`).
+The spec neither binds nor rejects this path (its rules are inductive: no finite derivation),
+so `C12_member_lookup` / `C12_member_lookup_rejects` say nothing here — their hypothesis `hF`
+is exactly what fails. -/
+theorem C12_self_renaming_counterexample :
+    (∀ F, resolveFRef exH F 1 = .fuel) ∧
+    (∀ cs, ¬ PathBound exH 1 cs) ∧ (∀ e, ¬ PathRejected exH 1 e) := by
+  have hall : ∀ F, resolveFRef exH F 1 = .fuel := by
+    intro F
+    have hfr : exH.frefs 1 = some ⟨ctxFoo, [⟨"g", 5, 6⟩, ⟨"x", 7, 8⟩]⟩ := rfl
+    have hh : exH.headCanon 1 = some ["m.emb", "Foo", "g"] := rfl
+    have hf : findObject exH.objs ["m.emb", "Foo", "g"] = some objG := by decide
+    match F with
+    | 0 => rfl
+    | 1 => simp only [resolveFRef, hfr, hh, hf, members]
+    | m + 2 => simp only [resolveFRef, hfr, hh, hf, members, exH_physical]
+  refine ⟨hall, ?_, ?_⟩
+  · intro cs h
+    obtain ⟨f, hf⟩ := member_complete exH _ h
+    rw [hall f] at hf
+    cases hf
+  · intro e h
+    obtain ⟨f, hf⟩ := member_fail_complete exH _ h
+    rw [hall f] at hf
+    cases hf
 
 end Emboss.Scope
